@@ -316,6 +316,7 @@ func (w *World) CheckProperty(prop, tier string, timeoutMs int, dump string, ver
 	r.Structural = append(r.Structural, w.mapRangeObligations(prop)...)
 	r.Structural = append(r.Structural, w.spawnedWriteObligations(prop)...)
 	r.Structural = append(r.Structural, w.yieldProtocolObligations(prop)...)
+	r.Structural = append(r.Structural, w.typedNilObligations(prop)...)
 	for _, n := range names {
 		fc := w.C.Funcs[n]
 		fn := w.P.Funcs[n]
